@@ -383,7 +383,10 @@ class Template:
                             self, data, filename, path, self.module_writer
                         )
                 module = compat.load_module(self.module_id, path)
-                if module._magic_number != codegen.MAGIC_NUMBER:
+                if (
+                    module._magic_number != codegen.MAGIC_NUMBER
+                    or module._template_filename != filename
+                ):
                     data = util.read_file(filename)
                     with _drop_expression_warnings():
                         _compile_module_file(
